@@ -303,7 +303,27 @@ def feat_queries():
                                        "lid:ll_malloc_split": 34, "lid:ll_calloc_split": 34, "lid:ll_realloc_split": 34, "lid:ll_memmove_sym": 34},
                             tiers=tiers, timeout=1700, cc_defs=["LL_MEM_CASES=" + ",".join(str(k) for k in list(range(0, 50, 2)) + [56, 64, 72, 88, 96, 128])]))
     return qs
-C01_PARTS = [c01_cmap, c01_name, c01_decoder, feat_queries]
+def c01_pass():
+    qs = []
+    for nfg, nr in ((1, 1), (3, 1), (3, 2), (4, 3)):
+        qs.append(Q(f"readranges_g{nfg}_r{nr}", "passload.cpp", "vh_readranges", {"NFG": nfg, "NR": nr}, unwind=nfg + 3, unwindset={"vh_bytes": 6 * nr + 2, "readRanges": max(nfg, nr) + 2,
+                    "lid:ll_malloc_split": 4, "lid:ll_calloc_split": 4}, cc_defs=[f"LL_MEM_CASES=0,{2 * nfg}"], tiers=("quick", "thorough") if nfg <= 3 else ("thorough",)))
+    for (ns, nt, nsu, nc, nru, ml, npre) in ((1, 0, 1, 1, 1, 1, 1), (2, 1, 1, 2, 1, 2, 1), (3, 2, 2, 2, 2, 3, 2), (3, 2, 2, 2, 2, 3, 1)):
+        sizes = sorted({0, 2 * npre, 16 * ns, 2 * nt * nc})
+        qs.append(Q(f"readstates_s{ns}t{nt}u{nsu}c{nc}r{nru}m{ml}p{npre}", "passload.cpp", "vh_readstates",
+                    {"NSTATES": ns, "NTRANS": nt, "NSUCC": nsu, "NCOLS": nc, "NRULES": nru, "MAPLEN": ml, "NPRE": npre}, unwind=8,
+                    unwindset={"vh_bytes": 2 * max(npre, nt * nc, nsu + 1) + 2, "readStates": max(ns, nt * nc, npre) + 2, "ll_qsort": ml + 2, "vh_readstates": max(ns, nt * nc, ml) + 2,
+                               "lid:ll_malloc_split": 6, "lid:ll_calloc_split": 6}, cc_defs=["LL_MEM_CASES=" + ",".join(map(str, sizes))],
+                    tiers=("quick", "thorough") if ns <= 2 else ("thorough",), timeout=None if ns <= 2 else 1700))
+    PSTUBS = ["_ZN9graphite24Pass10readRangesEPKhmRNS_5ErrorE", "_ZN9graphite24Pass9readRulesEPKhmS2_PKtS4_S2_S4_S2_RNS_4FaceENS_8passtypeERNS_5ErrorE",
+              "_ZN9graphite24Pass10readStatesEPKhS2_S2_RNS_4FaceERNS_5ErrorE", "_ZN9graphite22vm7Machine4CodeC2EbPKhS4_htRKNS_4SilfERKNS_4FaceENS_8passtypeEPPh"]
+    for L, reach in ((40, 0), (44, 0), (52, 0), (64, 0), (80, 1), (96, 1)):
+        d = {"LEN": L, "VH_PASS_HEADER": None}
+        if reach: d["REACH_STATES"] = None       # the witness twin must reach the readStates stub (all three sub-loaders are then reachable)
+        qs.append(Q(f"readpass_header_len{L}" + ("_reach" if reach else ""), "passload.cpp", "vh_readpass", d, unwind=4, unwindset={"vh_bytes": L + 2},
+                    stubs=PSTUBS, unit_flags={"Pass": ["-fno-inline"], "Code": ["-fno-inline"]}))
+    return qs
+C01_PARTS = [c01_cmap, c01_name, c01_decoder, feat_queries, c01_pass]
 @prop("C01")
 def c01():
     qs = []
